@@ -244,7 +244,7 @@ def one_case(G, n, ntags, roots, pruning, use_beta, beta, penalty, nbest):
     if (status == 1) != (len(allder) == 0):
         fail('C01', 'reported as failed although a licensed derivation exists' if status == 1 else 'a parse is returned although no licensed derivation exists',
              n_derivations=len(allder), **ctx)
-        if status == 1 and use_beta:
+        if status == 1:
             fail('C16', 'beam: derivations over admitted tags exist but the search fails', n_derivations=len(allder), **ctx)
         return
     if status == 1:
@@ -260,6 +260,16 @@ def one_case(G, n, ntags, roots, pruning, use_beta, beta, penalty, nbest):
         return          # optimality, pop order and k-best are stated for head-uniform grammars only
     if abs(got[0] - scores[0]) > TOL * max(1.0, abs(scores[0])):
         fail('C01', 'first parse is not a highest-scoring derivation', returned=got[0], best=scores[0], **ctx)
+        if pops:
+            # C16: was a beam-admitted tag of the best derivation never put on the agenda? (a leaf's priority is at least the score of any derivation through it,
+            # so it would have been popped before the worse goal item)
+            def leaves(t):
+                return [(t[2], t[1])] if t[0] == 'L' else leaves(t[5]) if t[0] == 'U' else leaves(t[6]) + leaves(t[7])
+            best_tree = max(allder, key=lambda d: d[0])[1]
+            popped = {(p['start_of_span'], p['cat']) for p in pops if p['span_length'] == 1}
+            missing = [lf for lf in leaves(best_tree) if lf not in popped]
+            if missing:
+                fail('C16', 'a tag admitted by the beam never entered the search', missing=missing, use_beta=use_beta, **{k: v for k, v in ctx.items() if k != 'use_beta'})
     # pops
     if pops:
         pr = [f32(p['in_score']) + f32(p['out_score']) for p in pops]
